@@ -124,8 +124,8 @@ func driveNonce(c *ctx) {
 		{{n: 16, err: false}, {n: 16, err: false}},
 		{{n: 31, err: false}, {n: 1, err: false}},
 		{{n: 0, err: false}, {n: 0, err: false}, {n: 32, err: false}},
-		{{n: 31, err: false}, {n: 1, err: true}},  // error delivered together with the last chunk: still a full read
-		{{n: 32, err: true}},              // all bytes plus an error
+		{{n: 31, err: false}, {n: 1, err: true}},    // error delivered together with the last chunk: still a full read
+		{{n: 32, err: true}},                        // all bytes plus an error
 		{{n: 10, err: false}, {n: 100, err: false}}, // reader offering more than asked
 	}
 	keys := []*big.Int{big.NewInt(1), add(bigN, -1)}
